@@ -53,6 +53,18 @@ def item_text(it, n, cls):
         return "[%s]: /d%d \"T%d\\\nU\"\n" % (label, n, n)
     if it["kind"] == "lfref":
         return "[%s]: /d%d \"T%d&#10;U\"\n" % (label, n, n)
+    if it["kind"] == "quoted":
+        return "> [%s]: /d%d \"T%d\"\n" % (label.replace("\n", "\n> "), n, n)
+    if it["kind"] == "quotedtitle":
+        return "> [%s]: /d%d\n> \"T%d\"\n" % (label.replace("\n", "\n> "), n, n)
+    if it["kind"] == "lazytitle":
+        return "> [%s]: /d%d\n\"T%d\"\n" % (label.replace("\n", "\n> "), n, n)
+    if it["kind"] == "lazydest":
+        return "> [%s]:\n/d%d\n" % (label.replace("\n", "\n> "), n)
+    if it["kind"] == "listed":
+        return "- [%s]: /d%d\n  \"T%d\"\n" % (label.replace("\n", "\n  "), n, n)
+    if it["kind"] == "listlazy":
+        return "- [%s]: /d%d\n\"T%d\"\n" % (label.replace("\n", "\n  "), n, n)
     raise C.MachineryError("unknown definition layout " + it["kind"])
 
 
